@@ -23,7 +23,7 @@ use texlang_stdlib::*;
 
 // ------------------------------------------------------------------ names
 
-const KNOWN: &[&str] = &["relax", "END", "x", "m", "a", "b", "c", "xa", "xb", "noexpand", "iftrue", "iffalse", "else", "fi", "or", "ifnum", "ifodd", "ifcase", "myif", "myfi", "myelse", "myor", "hidfi", "capture", "inject", "def", "gdef", "let", "global", "par", "<eof>"];
+const KNOWN: &[&str] = &["relax", "END", "x", "m", "a", "b", "c", "xa", "xb", "nx", "q", "t", "noexpand", "iftrue", "iffalse", "else", "fi", "or", "ifnum", "ifodd", "ifcase", "myif", "myfi", "myelse", "myor", "hidfi", "capture", "capturetwo", "inject", "w", "n", "long", "outer", "def", "gdef", "let", "global", "par", "<eof>"];
 
 thread_local! {
     static EXTRA: RefCell<HashMap<String, &'static str>> = RefCell::new(HashMap::new());
@@ -103,6 +103,14 @@ pub fn inject<S: TexlangState>(t: token::Token, input: &mut vm::ExecutionInput<S
         input.back(t);
     }
     Ok(())
+}
+/// `\capturetwo`: performs two single expansion steps on the input that follows, then behaves as `\capture`
+/// (observes a macro call made while the tokens of an earlier call are still on the input).
+pub fn capture_two<S: TexlangState>(t: token::Token, input: &mut vm::ExecutionInput<S>) -> prelude::Result<()> {
+    let x: &mut vm::ExpandedStream<S> = input.as_mut();
+    x.expand_once()?;
+    x.expand_once()?;
+    capture(t, input)
 }
 /// An unexpandable primitive that does nothing but leave its own token in the observation log
 /// (installed as `\relax` and as the end marker `\END`).
@@ -195,10 +203,13 @@ pub fn builtins_macro_only() -> HashMap<&'static str, command::BuiltIn<M>> {
         ("gdef", def::get_gdef()),
         ("global", prefix::get_global()),
         ("capture", command::BuiltIn::new_execution(capture::<M>)),
+        ("capturetwo", command::BuiltIn::new_execution(capture_two::<M>)),
         ("inject", command::BuiltIn::new_execution(inject::<M>)),
         ("relax", command::BuiltIn::new_execution(relax_recorded::<M>)),
         ("END", command::BuiltIn::new_execution(relax_recorded::<M>)),
         ("xa", expansion::get_expandafter_simple()),
+        ("long", prefix::get_long()),
+        ("outer", prefix::get_outer()),
     ])
 }
 
@@ -294,6 +305,7 @@ pub fn run_full(src: &str, injected: &[Tok], optimized_xa: bool) -> Outcome {
         let mut b = vtex::builtins();
         b.insert("capture", command::BuiltIn::new_execution(capture::<HState>));
         b.insert("inject", command::BuiltIn::new_execution(inject::<HState>));
+        b.insert("capturetwo", command::BuiltIn::new_execution(capture_two::<HState>));
         b.insert("relax", command::BuiltIn::new_execution(relax_recorded::<HState>));
         b.insert("END", command::BuiltIn::new_execution(relax_recorded::<HState>));
         b.insert("xa", if optimized_xa { expansion::get_expandafter_optimized() } else { expansion::get_expandafter_simple() });
